@@ -28,13 +28,24 @@ type History struct {
 // same operation in other spellings (renamed variables, literal <-> variable forms, fragments),
 // the same shape with other argument values, other operations in between.
 func GenHistory(r *common.Rand, name string, cfg *fedlab.Config, u *fedlab.Universe, minLen, maxLen int) *History {
+	return GenHistoryFx(r, &Fixed{Name: name, Config: cfg}, u, minLen, maxLen)
+}
+
+// GenHistoryFx: fx.IHops / fx.Directed (fixture families) steer the templates.
+func GenHistoryFx(r *common.Rand, fx *Fixed, u *fedlab.Universe, minLen, maxLen int) *History {
+	name, cfg := fx.Name, fx.Config
 	h := &History{CfgName: name, Config: cfg, U: u}
 	nt := 1 + r.Pick(4)
 	h.NTempl = nt
 	type grp struct{ t *Template }
 	var groups []grp
 	for i := 0; i < nt; i++ {
-		t := GenTemplate(r, cfg, u)
+		var t *Template
+		if fx.Directed != nil && i == 0 {
+			t = fx.Directed(r)
+		} else {
+			t = GenTemplateX(r, cfg, u, fx.IHops)
+		}
 		groups = append(groups, grp{t})
 		if t.HasArgs() {
 			for k := r.Pick(3); k > 0; k-- {
@@ -121,14 +132,19 @@ type HistoryObs struct {
 
 // Observe runs the history under every option set.
 func Observe(h *History, exec *fedlab.ExecServer, sets []OptionSet) (*HistoryObs, error) {
+	return ObserveSpecs(h, exec, SpecsOf(sets))
+}
+
+// ObserveSpecs runs the history under every run specification (option set + optional gated completion order).
+func ObserveSpecs(h *History, exec *fedlab.ExecServer, sets []RunSpec) (*HistoryObs, error) {
 	ho := &HistoryObs{Runs: map[string][]RunObs{}}
-	fresh := func(o OptionSet, sp *Spelled) (*Obs, error) {
-		lab, err := NewLab(h.Config, h.U, exec, o)
+	fresh := func(o RunSpec, sp *Spelled) (*Obs, error) {
+		lab, err := NewLab(h.Config, h.U, exec, o.Opt)
 		if err != nil {
 			return nil, err
 		}
 		defer lab.Close()
-		return Run(lab, sp), nil
+		return RunSpecd(lab, sp, o), nil
 	}
 	memo := map[*Spelled]*BaseObs{}
 	var monoLab *fedlab.Lab
@@ -142,7 +158,7 @@ func Observe(h *History, exec *fedlab.ExecServer, sets []OptionSet) (*HistoryObs
 			ho.Base = append(ho.Base, *b)
 			continue
 		}
-		f, err := fresh(DefaultOptions, rq.Sp)
+		f, err := fresh(RunSpec{Opt: DefaultOptions}, rq.Sp)
 		if err != nil {
 			return nil, err
 		}
@@ -167,14 +183,14 @@ func Observe(h *History, exec *fedlab.ExecServer, sets []OptionSet) (*HistoryObs
 		ho.Base = append(ho.Base, *b)
 	}
 	for _, o := range sets {
-		lab, err := NewLab(h.Config, h.U, exec, o)
+		lab, err := NewLab(h.Config, h.U, exec, o.Opt)
 		if err != nil {
 			return nil, err
 		}
 		fm := map[*Spelled]*Obs{}
 		var runs []RunObs
 		for _, rq := range h.Reqs {
-			ro := RunObs{O: Run(lab, rq.Sp)}
+			ro := RunObs{O: RunSpecd(lab, rq.Sp, o)}
 			if f, ok := fm[rq.Sp]; ok {
 				ro.FreshSame = f
 			} else {
@@ -227,6 +243,9 @@ func RespTree(o *Obs) *fedlab.J {
 		out.Members = append(out.Members, fedlab.Member{Key: "errors", Val: arr})
 	}
 	out.Members = append(out.Members, fedlab.Member{Key: "data", Val: orNull(o.Response.Get("data"))})
+	if x := o.Response.Get("extensions"); x != nil {
+		out.Members = append(out.Members, fedlab.Member{Key: "extensions", Val: x})
+	}
 	return out
 }
 
@@ -247,6 +266,10 @@ func digests(xs []string) string {
 
 // Sexp of one observed history (the hist case line; format in ocaml/c09/driver.ml).
 func (ho *HistoryObs) Sexp(h *History, useed uint64, sets []OptionSet) string {
+	return ho.SexpSpecs(h, useed, SpecsOf(sets))
+}
+
+func (ho *HistoryObs) SexpSpecs(h *History, useed uint64, sets []RunSpec) string {
 	var sb strings.Builder
 	sb.WriteString("(c09 hist " + h.CfgName + " " + common.I64(int64(useed)) + " (flags " + common.B(ho.Fork) + " " + common.B(ho.Join) + ") (base")
 	for i, b := range ho.Base {
